@@ -182,13 +182,13 @@ func schedCells() []schedCell {
 }
 
 type schedResult struct {
-	verdicts14 []verdict
-	verdicts09 []verdict
-	trace      []string
-	refused    int
+	verdicts14  []verdict
+	verdicts09  []verdict
+	trace       []string
+	refused     int
 	unsavedKeys int
-	stateHash  string
-	winners    string
+	stateHash   string
+	winners     string
 }
 
 // runSchedule executes one schedule of cell c chosen by d. Must run inside a bubble.
